@@ -108,9 +108,11 @@ def rules(ctx, tier):
              "a write guard or the intents/WAL guard is kept alive by a caller: every other call blocks")
     for p, cs in sorted(L.returns_holding().items()):
         b = prog.bodies[p]
-        ok = all(c == "STATE" and m == "r" for (c, m) in cs)
+        # a crate-private helper may hand guards to its caller (the lockset analysis follows them there); what must not
+        # happen is a guard other than the read view leaving the crate
+        ok = all(c == "STATE" and m == "r" for (c, m) in cs) or not b.reachable
         r.check(ok, "returns-guard:%s" % p.split("::")[-1], b,
-                "%s returns the shared read view %s" % (p, sorted(cs)),
+                "%s returns %s" % (p, "the shared read view" if b.reachable else "guards %s to crate-internal callers only" % sorted(cs)),
                 "%s returns a guard %s to its caller" % (p, sorted(cs)), "%s:%d" % (b.file, b.line))
     for path, adt in sorted(prog.adts.items()):
         for v in adt["variants"]:
